@@ -60,6 +60,7 @@ import time
 import numpy as np
 
 import common
+from props import c12_history
 import shim  # noqa: F401
 import cola
 from cola.linalg.inverse.cg import CG
@@ -79,6 +80,9 @@ EXACT_NMAX = 16
 
 # no provisional findings: `tiny-operator-scale` (found in round 2) was repaired in /repo by 1a4d949 (do_safe_div:
 # exact zero test); the fixed probe `tiny_scale_probe` stays as a regression check
+# no provisional findings.  `nystrom-real-U` (round 5: the Nystrom preconditioners applied `U.T` instead of `U.H`, so for complex
+# Hermitian PD A the preconditioner was not Hermitian) was repaired in /repo by 67a8740; the stream `nystrom` now expects
+# real = code = spec on complex inputs too (Lean regression witness: C12_nystrom_transpose_regression)
 PROVISIONAL_KNOWN = {}
 
 
@@ -990,11 +994,247 @@ def tiny_scale_probe():
     return out
 
 
+# ----------------------------------------------------------------------------- round 5: Nystrom preconditioner stream
+NYS_MODULE = "ColaVerif.Properties.C12.Nystrom"
+NYS_TOL = 1e-10          # relative tolerance of the direct formulas (contract, P @ V, inverse(P) @ V, sqrt(P) @ V)
+NYS_FIELD_TOL = 1e-13    # amu / subspace_num / subspace_denom: the same two or three float operations on both sides
+
+
+def nys_gen(rng, idx):
+    nrng = np.random.default_rng(rng.getrandbits(63))
+    cplx = rng.random() < 0.3
+    n = rng.randint(2, 8)
+    rank = rng.randint(1, n)
+    kappa = rng.choice([1.0, 10.0, 10.0, 100.0, 100.0])
+    kind, lam = spectrum(rng, n, kappa)
+    scale = 10.0 ** rng.choice([0, 0, -2, 2])
+    A = hpd(nrng, lam * scale, cplx)
+    m = rng.choice([1, 2, 3])
+    V = nrng.normal(size=(n, m))
+    b = nrng.normal(size=n)
+    if cplx:
+        V = V + 1j * nrng.normal(size=(n, m))
+        b = b + 1j * nrng.normal(size=n)
+    return {"id": idx, "complex": cplx, "n": n, "rank": rank, "kappa": kappa, "spec": kind, "mu": rng.choice([1e-1, 1e-2, 1e-3, 1e-7]),
+            "adjust_mu": rng.random() < 0.8, "key": rng.randint(0, 2 ** 31 - 1), "A": enc(A), "V": enc(V.T), "b": enc(b)}
+
+
+def nys_build(c):
+    from cola.linalg.preconditioning.preconditioners import NystromPrecond
+    A = dec(c["A"], c["complex"])
+    P = NystromPrecond(cola.PSD(cola.ops.Dense(A)), rank=c["rank"], mu=c["mu"], adjust_mu=c["adjust_mu"], key=c["key"])
+    return A, P
+
+
+def nys_lean_input(c, P):
+    return {"id": c["id"], "complex": c["complex"], "U": enc(np.asarray(P.U)), "Lambda": enc(np.asarray(P.Lambda)),
+            "mu": [fbits(c["mu"]), 0], "adjust_mu": bool(c["adjust_mu"]), "V": c["V"]}
+
+
+def nys_run_driver(inputs, nproc=4, timeout=1800):
+    if not inputs:
+        return {}
+    nproc = max(1, min(nproc, len(inputs)))
+    procs = []
+    for ch in [inputs[i::nproc] for i in range(nproc)]:
+        f = tempfile.TemporaryFile(mode="w+")
+        for d in ch:
+            f.write(json.dumps(d) + "\n")
+        f.seek(0)
+        procs.append((subprocess.Popen(["lake", "env", "lean", "--run", "DriverNys.lean"], cwd=common.LEAN_DIR, stdin=f,
+                                       stdout=subprocess.PIPE, stderr=subprocess.PIPE, text=True), f))
+    out = {}
+    for p, f in procs:
+        so, se = p.communicate(timeout=timeout)
+        f.close()
+        if p.returncode != 0:
+            raise RuntimeError(f"lean Nystrom driver failed rc={p.returncode}: {se[-2000:]}")
+        for line in so.splitlines():
+            if line.strip():
+                a = json.loads(line)
+                if "error" in a:
+                    raise RuntimeError(f"lean Nystrom driver: {a}")
+                out[a["id"]] = a
+    return out
+
+
+def nys_judge(c, A, P, ans):
+    """-> dict(contract=[...], diffs=[real vs code], spec=[real vs spec], cg=[...], info)"""
+    from cola.linalg.preconditioning.preconditioners import inverse as nys_inverse, sqrt as nys_sqrt
+    cp = c["complex"]
+    n = c["n"]
+    U = np.asarray(P.U)
+    Lam = np.asarray(P.Lambda, dtype=float)
+    r = U.shape[1]
+    amu = float(np.real(P.adjusted_mu))
+    num = float(np.real(P.subspace_num))
+    den = np.real(np.asarray(P.subspace_denom, dtype=complex)).astype(float)
+    V = dec(c["V"], cp).T
+    out = {"contract": [], "diffs": [], "spec": [], "cg": [], "info": {}}
+    # ---- the contract of get_nys_approx (hypotheses contract_U, contract_Lambda, 0 < amu of the theorems)
+    if U.shape != (n, c["rank"]) or Lam.shape != (r,):
+        out["contract"].append({"clause": "shapes", "U": list(U.shape), "Lambda": list(Lam.shape)})
+        return out
+    dU = float(np.abs(U.conj().T @ U - np.eye(r)).max())
+    if not dU <= NYS_TOL:
+        out["contract"].append({"clause": "contract_U", "max|U^H U - I|": dU})
+    if not np.all(Lam >= 0):
+        out["contract"].append({"clause": "contract_Lambda", "min": float(Lam.min())})
+    if not amu > 0:
+        out["contract"].append({"clause": "amu>0", "amu": amu})
+    if out["contract"]:
+        return out
+    # ---- real vs code model
+    lamu, lnum = unbits(ans["amu"][0]), unbits(ans["eigmax"][0])
+    lden = np.array([unbits(e[0]) for e in ans["denom"]])
+    for name, a, b in (("adjusted_mu", amu, lamu), ("subspace_num", num, lnum), ("preconditioned_eigmax", float(np.real(P.preconditioned_eigmax)), lnum),
+                       ("preconditioned_eigmin", float(np.real(P.preconditioned_eigmin)), unbits(ans["eigmin"][0]))):
+        if rel(a, b) > NYS_FIELD_TOL:
+            out["diffs"].append({"what": name, "real": a, "model": b})
+    if lden.shape != den.shape or any(rel(a, b) > NYS_FIELD_TOL for a, b in zip(den, lden)):
+        out["diffs"].append({"what": "subspace_denom", "real": den.tolist(), "model": lden.tolist()})
+    Pi, Ps = nys_inverse(P), nys_sqrt(P)
+    for name, op, key in (("P @ V", P, "PV"), ("inverse(P) @ V", Pi, "invPV"), ("sqrt(P) @ V", Ps, "sqrtPV")):
+        Xr = np.asarray(op @ V)
+        Xm = dec(ans[key], cp).T
+        ok, dv = cols_close(Xr, Xm, NYS_TOL, ref=V)
+        out["info"]["dev " + name] = dv
+        if not ok:
+            out["diffs"].append({"what": name, "rel_dev": dv})
+    # ---- real vs spec (the theorems of Properties/C12/Nystrom.lean)
+    I = np.eye(n)
+    D, Di, Ds = (np.asarray(op @ I.astype(V.dtype)) for op in (P, Pi, Ps))
+    ratio = num / den
+    condP = float(max(ratio.max(), 1.0) / min(ratio.min(), 1.0))
+    sD = max(1.0, float(np.abs(D).max()))
+    spec = out["spec"]
+    if float(np.abs(D - D.conj().T).max()) > NYS_TOL * sD:
+        spec.append({"theorem": "C12_nystrom_posDef", "what": "P is not Hermitian", "dev": float(np.abs(D - D.conj().T).max())})
+    elif float(np.linalg.eigvalsh((D + D.conj().T) / 2).min()) <= 0:
+        spec.append({"theorem": "C12_nystrom_posDef", "what": "P is not positive definite"})
+    d = float(np.abs(Di @ D - I).max())
+    if d > NYS_TOL * condP:
+        spec.append({"theorem": "C12_nystrom_inverse", "what": "inverse(P) @ P != I", "dev": d, "allowed": NYS_TOL * condP})
+    d = float(np.abs(Ds @ Ds - D).max())
+    if d > NYS_TOL * sD:
+        spec.append({"theorem": "C12_nystrom_sqrt", "what": "sqrt(P) @ sqrt(P) != P", "dev": d})
+    lmin = float(Lam.min())
+    Ahat = (U * Lam) @ U.conj().T + amu * I
+    want = amu * I + lmin * (U @ U.conj().T)
+    sA = float(np.abs(Ahat).max()) * sD
+    d = float(np.abs(D @ Ahat - want).max())
+    if d > NYS_TOL * sA:
+        spec.append({"theorem": "C12_nystrom_spectrum", "what": "P (U L U^H + amu) != amu + lmin U U^H", "dev": d})
+    ev = np.linalg.eigvalsh((D @ Ahat + (D @ Ahat).conj().T) / 2)
+    if ev.min() < amu - 1e-8 * sA or ev.max() > lmin + amu + 1e-8 * sA:
+        spec.append({"theorem": "C12_nystrom_spectrum", "what": "spectrum outside [amu, min(Lambda) + amu]", "eig": [float(ev.min()), float(ev.max())],
+                     "interval": [amu, lmin + amu]})
+    out["info"]["condP"] = condP
+    out["info"]["max|sigma|"] = float(np.abs(ratio - 1).max())
+    # ---- cg(A + amu I, b, P = NystromPrecond): Krylov-optimal in the P-preconditioned sense (C12_nystrom_optimal_any)
+    if not spec:
+        Asys = A + amu * I
+        b = dec(c["b"], cp)
+        ev = np.real(np.linalg.eigvals(D @ Asys))
+        kap = float(ev.max() / ev.min()) if ev.min() > 0 else math.inf
+        out["info"]["kappa_PA"] = kap
+        out["info"]["kappa_A"] = float(np.linalg.cond(Asys))
+        if kap <= 1e4:
+            xs = np.linalg.solve(Asys, b)
+            ref = a_norm(Asys, xs)
+            x0 = np.zeros_like(b)
+            for k in range(0, min(n, 6) + 1):
+                x, info = real_cg(cola.PSD(cola.ops.Dense(Asys)), b.copy(), None, P, 1e-30, k)
+                out["info"]["cg_runs"] = out["info"].get("cg_runs", 0) + 1
+                if int(info["iterations"]) - 1 != k or (kap > 100 and k > 5):
+                    break
+                y, dim = krylov_opt(Asys, D, b, x0, k)
+                dx = a_norm(Asys, np.asarray(x) - y) / ref if ref > 0 else 0.0
+                lim = 1e-6 * max(1.0, kap / 10)
+                out["info"]["cg_worst_ratio"] = max(out["info"].get("cg_worst_ratio", 0.0), dx / lim)
+                out["info"]["cg_checked"] = out["info"].get("cg_checked", 0) + 1
+                if dx > lim:
+                    out["cg"].append({"clause": "optimal", "step": k, "anorm_dev": dx, "limit": lim, "dim": dim})
+                    break
+                if dim < k:
+                    break
+    return out
+
+
+def nystrom_stream(ctx, rng, replay_case=None):
+    """real NystromPrecond objects vs the Lean model (DriverNys.lean) vs the theorems; returns the coverage dict"""
+    ncases = 80 if not ctx.thorough else 800
+    cases = [replay_case] if replay_case is not None else [nys_gen(rng, i) for i in range(ncases)]
+    built, construct_err = [], 0
+    for c in cases:
+        try:
+            A, P = nys_build(c)
+        except np.linalg.LinAlgError as ex:
+            construct_err += 1        # get_nys_approx fails on a Hermitian PD input (pre-67a8740: Cholesky of the non-Hermitian Omega.T @ Y)
+            if construct_err <= 3:
+                common.violation(ctx, {"nystrom_case": c, "violated": [{"clause": "construction", "error": repr(ex)}],
+                                       "how": "NystromPrecond(PSD(Dense(A)), rank, ...) raises on a Hermitian positive-definite A"})
+            continue
+        built.append((c, A, P))
+    answers = nys_run_driver([nys_lean_input(c, P) for c, A, P in built], nproc=4 if not ctx.thorough else 16)
+    st = {"cases": len(cases), "evaluations": 0, "nontrivial": set(), "field": {}, "n": {}, "rank": {}, "mu": {}, "adjust_mu": {}, "cg_checked": 0, "cg_runs": 0,
+          "cg_worst_ratio": 0.0, "worst_dev": 0.0, "construction_errors": construct_err,
+          "worst_condP": 0.0, "samples": []}
+    nviol = 0
+    for c, A, P in built:
+        j = nys_judge(c, A, P, answers[c["id"]])
+        st["evaluations"] += 6 + j["info"].get("cg_runs", 0)
+        for k, v in (("field", "complex" if c["complex"] else "real"), ("n", c["n"]), ("rank", c["rank"]), ("mu", c["mu"]), ("adjust_mu", c["adjust_mu"])):
+            st[k][str(v)] = st[k].get(str(v), 0) + 1
+        st["cg_checked"] += j["info"].get("cg_checked", 0)
+        st["cg_runs"] += j["info"].get("cg_runs", 0)
+        st["cg_worst_ratio"] = max(st["cg_worst_ratio"], j["info"].get("cg_worst_ratio", 0.0))
+        st["worst_condP"] = max(st["worst_condP"], j["info"].get("condP", 0.0))
+        st["worst_dev"] = max([st["worst_dev"]] + [v for k, v in j["info"].items() if k.startswith("dev ")])
+        if c["rank"] >= 2 and j["info"].get("max|sigma|", 0.0) > 1e-3:
+            st["nontrivial"].add(json.dumps([c["A"], c["rank"], c["key"], c["mu"], c["adjust_mu"], c["V"]]))
+        if len(st["samples"]) < 2:
+            st["samples"].append({k: c[k] for k in ("complex", "n", "rank", "mu", "adjust_mu", "key", "kappa", "spec")} | {"info": j["info"]})
+        payload = {"nystrom_case": c, "call": "NystromPrecond(PSD(Dense(A)), rank, mu=mu, adjust_mu=adjust_mu, key=key)"}
+        if j["contract"]:
+            nviol += 1
+            if nviol <= 3:
+                common.violation(ctx, dict(payload, violated=j["contract"], how="get_nys_approx broke its contract (U^H U = I, Lambda >= 0, amu > 0) on this input"))
+        elif j["diffs"]:
+            nviol += 1
+            if nviol <= 3:
+                if j["spec"] or j["cg"]:
+                    common.violation(ctx, dict(payload, violated=(j["spec"] + j["cg"])[:5], found_from=j["diffs"][:3],
+                                               how="real Nystrom preconditioner disagrees with the Lean model AND contradicts the theorems on this input"))
+                else:
+                    common.violation(ctx, dict(payload, broken="correspondence real NystromPrecond vs Lean model (Model/Nystrom.lean)", diffs=j["diffs"][:5]), no_input=True)
+        elif j["spec"] or j["cg"]:
+            nviol += 1
+            if nviol <= 3:
+                common.violation(ctx, dict(payload, violated=(j["spec"] + j["cg"])[:5],
+                                           how="real = model and the contract holds, yet the theorems' conclusion fails numerically on this input"))
+    st["distinct_nontrivial"] = len(st.pop("nontrivial"))
+    st["violations"] = nviol + construct_err
+    st["rule"] = ("real NystromPrecond(PSD(Dense(A)), rank, mu, adjust_mu, key) on HPD A = Q diag(lambda) Q^H, n = 2..8, rank = 1..n, kappa in {1, 10, 100}, scale 1e-2..1e2, "
+                  "30% complex, mu in {1e-1, 1e-2, 1e-3, 1e-7}; U, Lambda read from the object; contract |U^H U - I| <= 1e-10, Lambda >= 0, amu > 0; "
+                  "amu / num / denom (1e-13) and P @ V, inverse(P) @ V, sqrt(P) @ V (column-wise 2-norm, 1e-10) against DriverNys.lean (createApprox, matmat, inverse, sqrtP "
+                  "over Float / CFloat); theorems checked on dense matrices: Hermitian PD, inverse(P) P = I (1e-10 * cond P), sqrt(P)^2 = P, "
+                  "P (U L U^H + amu) = amu + min(L) U U^H and its spectrum in [amu, min(L) + amu]; cg(A + amu I, b, P) for max_iters = 0..min(n, 6) against the dense "
+                  "Krylov-optimum oracle of this module (A-norm, 1e-6 * max(1, kappa(PA)/10)); evaluations = products / cg runs of the real code; "
+                  "non-trivial = rank >= 2 and some |sigma_i| > 1e-3")
+    return st
+
+
+
 def run(ctx):
     import multiprocessing as mp
     gate, gate_err = None, None
     try:
-        gate = common.lean_gate(ctx, MODULE)
+        gate = dict(common.lean_gate(ctx, MODULE))
+        g2 = common.lean_gate(ctx, NYS_MODULE)          # round 5: Properties/C12/Nystrom.lean
+        gate["obligations"] += g2["obligations"]
+        gate["discharged"] += g2["discharged"]
+        gate["theorems"] = sorted(set(gate["theorems"]) | set(g2["theorems"]))
     except common.LeanGateError as ex:
         gate_err = str(ex)
         print("lean gate failed:\n" + gate_err[-1500:], flush=True)
@@ -1004,6 +1244,8 @@ def run(ctx):
     if ctx.replay:
         rp = json.load(open(ctx.replay))
         cases = [rp["case"]] if rp.get("case") else []
+        nys_replay = rp.get("nystrom_case")
+        hist_replay = rp.get("stream") == "history"
         for i, c in enumerate(cases):
             c["id"] = i
     else:
@@ -1067,6 +1309,17 @@ def run(ctx):
                                                           "call": "cg(PSD(Dense(s * [[2,-1,0],[-1,2,-1],[0,-1,2]])), [1,0,0], None, None, 1e-6, 3) for s in (1e-30, 1e-41)"}],
                                "how": "fixed probe: cg on a Hermitian positive-definite operator of tiny scale does not return the solution after n = 3 steps "
                                       "(an absolute threshold in do_safe_div is back)"})
+    nys = None
+    if not ctx.replay or nys_replay is not None:
+        nys = nystrom_stream(ctx, random.Random(ctx.seed * 104729 + 1205), nys_replay if ctx.replay else None)
+        chk.stats["evaluations"] += nys["evaluations"]
+    hist = None
+    if not ctx.replay or hist_replay:
+        # reports stay what they were while later solves run (harness/props/c12_history.py); exact observations
+        h_checks, h_problems, h_samples = c12_history.history_stream(ctx, random.Random(ctx.seed * 7 + 1212))
+        for prob in h_problems[:3]:
+            common.violation(ctx, {"stream": "history", **prob})
+        hist = {"checks": h_checks, "problems": len(h_problems), "samples": h_samples}
     st = chk.stats
     cov = {
         "evaluations": st["evaluations"],
@@ -1100,6 +1353,7 @@ def run(ctx):
             "limits": "exact side: n <= %d and an operation budget per case; larger sizes (thorough: n = 50..200, kappa <= 1e6) are float side only" % EXACT_NMAX},
         "large_cases": st["large_cases"], "long_runs_to_convergence": st["long_runs"],
         "provisional_known": sorted(PROVISIONAL_KNOWN), "tiny_operator_scale_probe": tscale,
+        "nystrom_stream": nys, "history_stream": hist,
         "samples": st["samples"], "lean_driver_wall_s": round(t_lean, 1),
         "real_violations": n_real_viol, "correspondence_disagreements": n_corr,
         "observations": {"tiny_rhs_norms (stream covers 1e-140..1e6; fixed probe)": tiny},
@@ -1110,7 +1364,7 @@ def run(ctx):
         "stops-as-soon-as / stops-not-before are checked on the TRUE residual |b - A x| of the real iterates against tol * |b - A x0| + tol * |b|: this is the Lean theorem C12_stop_true_residual (exact arithmetic; any A, P, batch, x0, tol; no guard, mask or definiteness hypothesis), obtained from C12_stop through C12_residual_true_any (for every column with b_j != 0 and every step i the recurrence residual the loop tests equals (b - A x_i)/|b|: x and r are updated with the same alpha) and C12_tolEff_true; under the input-level hypotheses MaskOffN (C12_residual_true_mask), one right-hand side with tol >= 1e-40 (C12_residual_true_single) or none beyond HPD (C12_residual_true_final, some k' <= k) it is moreover the textbook residual of the textbook iterate; the round-1 statement C12_residual_true (hypothesis GuardsOffN on computed quantities) is only kept as a corollary; the float check adds a slack of 200 * eps * kappa * n for the drift of the recurrence residual in IEEE arithmetic",
         "IEEE range: below |b| ~ 1e-154 the squares inside np.linalg.norm underflow and a non-zero column is treated as zero (returns 0); outside the exact-arithmetic model, recorded under observations",
         "a zero column with x0 != 0 has no relative tolerance (|b| = 0): the code iterates on (0, x0) un-normalised and returns exactly 0 (C12_zero; the residual it tests is that of A x = 0 from x0, C12_residual_recurrence); the stops-as-soon-as clause leaves such cases out",
-        "AdaNysPrecond (randomised Nystrom preconditioner) is not exercised; any Hermitian positive-definite P is covered by the theorems and dense SPD P by the stream",
+        "Nystrom preconditioner (round 5): NystromPrecond._create_approx / _matmat, NystromPrecondLazy._matmat and the rules inverse / sqrt are modelled (Model/Nystrom.lean) and compared on real objects; get_nys_approx (QR, Cholesky, SVD) is NOT modelled: its contract U^H U = I, Lambda >= 0 and amu > 0 are hypotheses of C12_nystrom_* and are checked numerically (1e-10) on every object the stream builds; real and complex dtypes alike since /repo 67a8740 (conjugate transpose of U; the former finding nystrom-real-U is a regression witness now, C12_nystrom_transpose_regression); AdaNysPrecond and select_rank_adaptively (same _matmat, rank chosen by a power iteration) are not exercised",
         "quick: kappa <= 1e3, n <= 12; thorough: n <= 40 in the main stream plus 48 cases with n in {50, 100, 200}, kappa in {1e3..1e6} (float side: real vs float model with the measured-sensitivity rule on caps 0..K <= 24, one run to convergence judged model-free); the float Krylov-optimum oracle is applied at every step for kappa_eff <= 100 and at steps <= 5 above",
         "comparison with the exact Krylov-optimal iterate only on steps where the bound B_k is informative (<= 1e-4); B_k is an amplification model calibrated by measurement, not a theorem -- beyond it floating-point CG is not comparable with exact CG step by step",
         "C12_optimal_single: one right-hand side and tol >= 1e-40 need no hypothesis beyond HPD A, P; C12_optimal_any: every tol >= 0 and every batch, the returned column is the Krylov-optimal iterate of some k' <= k with k' < k only for a column already converged below 1e-40 |b| (the has_converged mask of take_cg_step is still in the code); the divisions are guarded by an exact zero test since /repo 1a4d949",
